@@ -3,16 +3,19 @@
   Property theorems only; the model is `SyModel/Hardlink/Protocol.lean`, helper lemmas live in
   `SyModel/Lemmas/Hardlink*.lean`.
 
-  All theorems are for an arbitrary number of workers `cfg.n`, arbitrary partitions into link
-  groups (`(cfg.worker w).inode`), arbitrary scripted await points, arbitrary fault plans and
-  arbitrary *micro-step* schedules (thread-level interleavings at mutex granularity; the
-  `poll`-level schedules of a single-threaded executor are a special case, `poll_is_execution`).
+  All theorems are for an arbitrary number of paths `cfg.n` — each created, updated or skipped —,
+  arbitrary partitions into link groups (`(cfg.worker w).inode`), arbitrary pre-run destinations,
+  arbitrary scripted await points, arbitrary fault plans and arbitrary *micro-step* schedules
+  (thread-level interleavings at mutex granularity; the `poll`-level schedules of a single-threaded
+  executor are a special case, `poll_is_execution`).
 
-  Status on the pinned tree: the shipped protocol (`Variant.pinned`) falsifies `no_stuck`
-  (`no_stuck_counterexample_pinned`, the A11 hang; `lost_wakeup_counterexample_pinned`);
-  `fix-c13-hardlink-hang.diff` (`Variant.repaired`) is what `no_stuck`, `no_infinite_execution`
-  and `owner_failure_surfaces` are proved for.  `single_owner`, `link_structure` and `terminates`
-  hold for both variants.  tokio's `Notify` is modelled, not verified.
+  Status on the current tree (a68466f): `Variant.repaired` is the code as it is — the hand-off
+  `transfer_link_member` is shared by `create` and `update`. `Variant.pinned` keeps the protocol as
+  originally shipped, with its machine-checked hang witnesses (`no_stuck_counterexample_pinned`,
+  `lost_wakeup_counterexample_pinned`). `single_owner`, `link_structure` and `terminates` hold for
+  both variants. Still false on the current code, each with a witness here and a replay on the real
+  binary: `new_link_not_joined_counterexample`, `skipped_members_keep_stale_structure_counterexample`,
+  `foreign_link_write_through_counterexample`. tokio's `Notify` is modelled, not verified.
 -/
 import SyModel.Lemmas.HardlinkProps
 import SyModel.Lemmas.HardlinkUpdate
@@ -46,7 +49,7 @@ theorem in_progress_is_held (cfg : Cfg) (hv : cfg.variant = .repaired) (s : Stat
   | inl h => exact h
   | inr h => rw [hv] at h; cases h.1
 
-/-! ### link structure -/
+/-! ### link structure — after creation *and* after updates -/
 
 /-- Files that share a source inode are all hard-link candidates (`nlink > 1`); a file outside the
     hard-link branch has an inode of its own. -/
@@ -55,69 +58,85 @@ def WF (cfg : Cfg) : Prop :=
     (cfg.worker w₁).inode = (cfg.worker w₂).inode →
       (cfg.worker w₁).linked = true ∧ (cfg.worker w₂).linked = true
 
-/-- For entries created in the run (both variants, any fault plan, any schedule, any reachable
-    state — in particular the final one): two destination files whose creation returned `Ok` share
-    an inode **iff** their sources do, and each has its source's content. -/
-theorem link_structure (cfg : Cfg) (hwf : WF cfg) (s : State) (hr : Reachable cfg s)
-    (w₁ w₂ : Nat) (hw₁ : w₁ < cfg.n) (hw₂ : w₂ < cfg.n)
+/-- The path is transferred (created or updated) in this run, not skipped. -/
+def Active (cfg : Cfg) (w : Nat) : Prop := (cfg.worker w).action ≠ .skip
+
+/-- For every path **created or updated** in the run — any mix of both, files below or at/above the
+    delta gate, both variants, any fault plan, any schedule, any reachable state (in particular the
+    final one) — and any well-formed pre-run destination: two destination files whose transfer
+    returned `Ok` share an inode **iff** their sources do, and each has its source's content.
+    (Before a68466f this held for created paths only.) -/
+theorem link_structure (cfg : Cfg) (hwf : WF cfg) (hdst : cfg.DstOk) (s : State)
+    (hr : Reachable cfg s) (w₁ w₂ : Nat) (hw₁ : w₁ < cfg.n) (hw₂ : w₂ < cfg.n)
+    (ha₁ : Active cfg w₁) (ha₂ : Active cfg w₂)
     (hok₁ : s.pc w₁ = .done .ok) (hok₂ : s.pc w₂ = .done .ok) :
     ∃ f₁ f₂, s.dst w₁ = some f₁ ∧ s.dst w₂ = some f₂ ∧
       (f₁.ino = f₂.ino ↔ (cfg.worker w₁).inode = (cfg.worker w₂).inode) ∧
       f₁.content = cfg.content (cfg.worker w₁).inode ∧
       f₂.content = cfg.content (cfg.worker w₂).inode := by
   have hi := inv_reachable hr
-  cases hl₁ : (cfg.worker w₁).linked <;> cases hl₂ : (cfg.worker w₂).linked
-  · -- two ordinary files
-    refine ⟨_, _, hi.okPlain w₁ hl₁ hok₁, hi.okPlain w₂ hl₂ hok₂, ⟨?_, ?_⟩, rfl, rfl⟩
-    · intro h; simp only at h; rw [h]
-    · intro h
-      apply Classical.byContradiction
-      intro hne
-      have := (hwf w₁ w₂ hw₁ hw₂ hne h).1
-      rw [hl₁] at this; cases this
-  · -- ordinary file and link-group member
-    obtain ⟨p, hm, hd⟩ := hi.okLinked w₂ hl₂ hok₂
-    obtain ⟨_, hlp, _, _, _⟩ := hi.mapDone _ p hm
-    refine ⟨_, _, hi.okPlain w₁ hl₁ hok₁, hd, ⟨?_, ?_⟩, rfl, rfl⟩
-    · intro h; simp only at h; rw [← h, hl₁] at hlp; cases hlp
-    · intro h
-      have hne : w₁ ≠ w₂ := by intro e; rw [e, hl₂] at hl₁; cases hl₁
-      have := (hwf w₁ w₂ hw₁ hw₂ hne h).1
-      rw [hl₁] at this; cases this
-  · obtain ⟨p, hm, hd⟩ := hi.okLinked w₁ hl₁ hok₁
-    obtain ⟨_, hlp, _, _, _⟩ := hi.mapDone _ p hm
-    refine ⟨_, _, hd, hi.okPlain w₂ hl₂ hok₂, ⟨?_, ?_⟩, rfl, rfl⟩
-    · intro h; simp only at h; rw [h, hl₂] at hlp; cases hlp
-    · intro h
-      have hne : w₁ ≠ w₂ := by intro e; rw [e, hl₂] at hl₁; cases hl₁
-      have := (hwf w₁ w₂ hw₁ hw₂ hne h).2
-      rw [hl₂] at this; cases this
-  · -- two link-group members: both share the inode of the recorded first path of their group
-    obtain ⟨p₁, hm₁, hd₁⟩ := hi.okLinked w₁ hl₁ hok₁
-    obtain ⟨p₂, hm₂, hd₂⟩ := hi.okLinked w₂ hl₂ hok₂
-    obtain ⟨_, _, hi₁, _, _⟩ := hi.mapDone _ p₁ hm₁
-    obtain ⟨_, _, hi₂, _, _⟩ := hi.mapDone _ p₂ hm₂
-    refine ⟨_, _, hd₁, hd₂, ⟨?_, ?_⟩, rfl, rfl⟩
-    · intro h; simp only at h; rw [← hi₁, ← hi₂, h]
-    · intro h; simp only; rw [h, hm₂] at hm₁; cases hm₁; rfl
+  have hd := invD_reachable hdst hr
+  -- each path exists with its source's content
+  have cont : ∀ w, Active cfg w → s.pc w = .done .ok →
+      (s.dst w).map File.content = some (cfg.content (cfg.worker w).inode) := by
+    intro w ha hok
+    cases hl : (cfg.worker w).linked
+    · exact hd.okPlain w hl ha hok
+    · obtain ⟨p, hm⟩ := hd.okLinkedMap w hl ha hok
+      exact (hd.okLinkedDst w p hl ha hok hm).2
+  have c₁ := cont w₁ ha₁ hok₁
+  have c₂ := cont w₂ ha₂ hok₂
+  cases h₁ : s.dst w₁ with
+  | none => rw [h₁] at c₁; cases c₁
+  | some f₁ =>
+    cases h₂ : s.dst w₂ with
+    | none => rw [h₂] at c₂; cases c₂
+    | some f₂ =>
+      rw [h₁] at c₁; rw [h₂] at c₂
+      simp only [Option.map_some, Option.some.injEq] at c₁ c₂
+      refine ⟨f₁, f₂, rfl, rfl, ⟨?_, ?_⟩, c₁, c₂⟩
+      · -- names of one destination inode belong to one source inode
+        intro he
+        exact hd.refines w₁ w₂ f₁.ino (by rw [h₁]; rfl) (by rw [h₂, he]; rfl)
+      · -- members of one source group share the inode of the recorded first path
+        intro he
+        by_cases hne : w₁ = w₂
+        · subst hne; rw [h₁] at h₂; cases h₂; rfl
+        · obtain ⟨hl₁, hl₂⟩ := hwf w₁ w₂ hw₁ hw₂ hne he
+          obtain ⟨p₁, hm₁⟩ := hd.okLinkedMap w₁ hl₁ ha₁ hok₁
+          obtain ⟨p₂, hm₂⟩ := hd.okLinkedMap w₂ hl₂ ha₂ hok₂
+          have e₁ := (hd.okLinkedDst w₁ p₁ hl₁ ha₁ hok₁ hm₁).1
+          have e₂ := (hd.okLinkedDst w₂ p₂ hl₂ ha₂ hok₂ hm₂).1
+          rw [he, hm₂] at hm₁
+          cases hm₁
+          rw [h₁] at e₁; rw [h₂, ← e₁] at e₂
+          simp only [Option.map_some, Option.some.injEq] at e₂
+          exact e₂.symm
 
 /-- A run in which no operation fails. -/
 def Clean (cfg : Cfg) : Prop := ∀ w, w < cfg.n → (cfg.worker w).clean = true
 
-/-- In a clean run every worker that returns, returns `Ok` … -/
-theorem clean_all_ok (cfg : Cfg) (hc : Clean cfg) (s : State) (hr : Reachable cfg s)
-    (w : Nat) (r : Res) (h : s.pc w = .done r) : r = .ok := by
+/-- In a clean run every path that returns, returns `Ok` … -/
+theorem clean_all_ok (cfg : Cfg) (hc : Clean cfg) (hdst : cfg.DstOk) (s : State)
+    (hr : Reachable cfg s) (w : Nat) (r : Res) (h : s.pc w = .done r) : r = .ok := by
   obtain ⟨sched, hex⟩ := hr
-  have := clean_exec hc hex (fun _ => rfl) w
+  have h0 : ∀ v, ((init cfg).pc v).errish = false := by
+    intro v; simp only [init]; split <;> rfl
+  have hu : ∀ v, ((init cfg).pc v).updateOnly = true → (cfg.worker v).action = .update := by
+    intro v hv; simp only [init] at hv; split at hv <;> simp [Pc.updateOnly] at hv
+  have := clean_exec hc hex (inv_init cfg) (invD_init cfg hdst) hu h0 w
   rw [h] at this
   cases r with
   | ok => rfl
   | err op => simp [Pc.errish] at this
 
-/-- … hence in the final state of a clean run *all* destination files exist, have their source's
-    content, and share an inode exactly when their sources do. -/
-theorem link_structure_clean (cfg : Cfg) (hwf : WF cfg) (hc : Clean cfg) (s : State)
-    (hr : Reachable cfg s) (hfin : allDone cfg s) (w₁ w₂ : Nat) (hw₁ : w₁ < cfg.n) (hw₂ : w₂ < cfg.n) :
+/-- … hence in the final state of a clean run *all* transferred paths exist, have their source's
+    content, and share an inode exactly when their sources do. In particular: when every member of
+    a link group is updated in one run — through the shared inode below the delta gate, through a
+    temp file and `rename` at or above it — the group is still one inode afterwards. -/
+theorem link_structure_clean (cfg : Cfg) (hwf : WF cfg) (hc : Clean cfg) (hdst : cfg.DstOk)
+    (s : State) (hr : Reachable cfg s) (hfin : allDone cfg s) (w₁ w₂ : Nat)
+    (hw₁ : w₁ < cfg.n) (hw₂ : w₂ < cfg.n) (ha₁ : Active cfg w₁) (ha₂ : Active cfg w₂) :
     ∃ f₁ f₂, s.dst w₁ = some f₁ ∧ s.dst w₂ = some f₂ ∧
       (f₁.ino = f₂.ino ↔ (cfg.worker w₁).inode = (cfg.worker w₂).inode) ∧
       f₁.content = cfg.content (cfg.worker w₁).inode ∧
@@ -126,8 +145,20 @@ theorem link_structure_clean (cfg : Cfg) (hwf : WF cfg) (hc : Clean cfg) (s : St
     intro w hw
     have hd := hfin w hw
     cases hp : s.pc w <;> rw [hp] at hd <;> simp [Pc.isDone] at hd
-    case done r => rw [clean_all_ok cfg hc s hr w r hp]
-  exact link_structure cfg hwf s hr w₁ w₂ hw₁ hw₂ (ok w₁ hw₁) (ok w₂ hw₂)
+    case done r => rw [clean_all_ok cfg hc hdst s hr w r hp]
+  exact link_structure cfg hwf hdst s hr w₁ w₂ hw₁ hw₂ ha₁ ha₂ (ok w₁ hw₁) (ok w₂ hw₂)
+
+/-- The skipped names are not damaged either: as long as the pre-run destination has no foreign
+    links, every destination file's content is the content of *some* name's source, namely its
+    own — names of one destination inode belong to one source inode, throughout the run. -/
+theorem no_cross_group_sharing (cfg : Cfg) (hdst : cfg.DstOk) (s : State) (hr : Reachable cfg s)
+    (q r : Nat) (fq fr : File) (hq : s.dst q = some fq) (hr' : s.dst r = some fr)
+    (he : fq.ino = fr.ino) : (cfg.worker q).inode = (cfg.worker r).inode ∧ fq.content = fr.content := by
+  have hd := invD_reachable hdst hr
+  refine ⟨hd.refines q r fq.ino (by rw [hq]; rfl) (by rw [hr', he]; rfl), ?_⟩
+  have := hd.inoContent q r fq.ino (by rw [hq]; rfl) (by rw [hr', he]; rfl)
+  rw [hq, hr'] at this
+  simpa using this
 
 /-! ### no reachable state is stuck (repaired protocol) -/
 
@@ -193,9 +224,9 @@ theorem no_infinite_execution (cfg : Cfg) (σ : Nat → Nat) (st : Nat → State
 /-- Repaired protocol: every maximal execution (one that stops only when no worker is enabled)
     ends with every worker returned, within `measure cfg init` micro-steps. -/
 theorem every_run_completes (cfg : Cfg) (hv : cfg.variant = .repaired) (sched : List Nat) (s : State)
-    (h : Exec cfg init sched s) (hmax : ∀ w, w < cfg.n → enabled cfg s w = false) :
-    allDone cfg s ∧ sched.length ≤ measure cfg init := by
-  refine ⟨?_, execution_bounded cfg init s sched h⟩
+    (h : Exec cfg (init cfg) sched s) (hmax : ∀ w, w < cfg.n → enabled cfg s w = false) :
+    allDone cfg s ∧ sched.length ≤ measure cfg (init cfg) := by
+  refine ⟨?_, execution_bounded cfg (init cfg) s sched h⟩
   apply Classical.byContradiction
   intro hnf
   obtain ⟨w, hw, hen⟩ := no_stuck cfg hv s ⟨sched, h⟩ hnf
@@ -268,7 +299,7 @@ def a11 : Cfg where
     and it returns through `?`. -/
 def a11Sched : List Nat := [0, 0, 1, 1, 2, 2, 0]
 
-def a11Stuck : State := (runMicro a11 init a11Sched).1
+def a11Stuck : State := (runMicro a11 (init a11) a11Sched).1
 
 /-- **`no_stuck` is false for the code as shipped** (`C13/owner-failure-leaves-waiters`): the state
     reached by `a11Sched` is reachable, not final (workers 1 and 2 are still waiting), the owner has
@@ -278,7 +309,7 @@ theorem no_stuck_counterexample_pinned :
       a11Stuck.pc 0 = .done (.err .mkdir) ∧ a11Stuck.map 7 = some (.inProgress 0) ∧
       a11Stuck.pc 1 = .waiting 0 0 ∧ a11Stuck.pc 2 = .waiting 0 0 ∧
       ∀ w, enabled a11 a11Stuck w = false := by
-  refine ⟨rfl, ⟨a11Sched, exec_of_runMicro a11Sched init rfl⟩, ?_, rfl, rfl, rfl, rfl, ?_⟩
+  refine ⟨rfl, ⟨a11Sched, exec_of_runMicro a11Sched (init a11) rfl⟩, ?_, rfl, rfl, rfl, rfl, ?_⟩
   · intro h
     have := h 1 (by decide)
     exact absurd this (by decide)
@@ -295,7 +326,7 @@ theorem no_stuck_counterexample_pinned :
 /-- The same configuration under the repaired protocol does not get stuck there: after the same
     schedule the failing owner is still enabled (it is about to remove its entry). -/
 theorem a11_repaired_not_stuck :
-    enabled { a11 with variant := .repaired } (runMicro { a11 with variant := .repaired } init a11Sched).1 0
+    enabled { a11 with variant := .repaired } (runMicro { a11 with variant := .repaired } (init a11) a11Sched).1 0
       = true := rfl
 
 /-- Two links, nothing fails. -/
@@ -311,7 +342,7 @@ def lw : Cfg where
     `notified()` future. -/
 def lwSched : List Nat := [0, 0, 1, 0, 0, 0, 0, 0, 1]
 
-def lwStuck : State := (runMicro lw init lwSched).1
+def lwStuck : State := (runMicro lw (init lw) lwSched).1
 
 /-- **Lost wake-up in the code as shipped** (`C13/lost-wakeup`, thread-level schedule, no failure
     involved): worker 1 ends up awaiting a `Notified` future created *after* the only
@@ -322,7 +353,7 @@ theorem lost_wakeup_counterexample_pinned :
       lwStuck.pc 0 = .done .ok ∧ lwStuck.map 7 = some (.completed 0) ∧
       lwStuck.pc 1 = .waiting 0 1 ∧ lwStuck.calls 0 = 1 ∧
       ∀ w, enabled lw lwStuck w = false := by
-  refine ⟨rfl, fun _ _ => rfl, ⟨lwSched, exec_of_runMicro lwSched init rfl⟩, ?_, rfl, rfl, rfl, rfl, ?_⟩
+  refine ⟨rfl, fun _ _ => rfl, ⟨lwSched, exec_of_runMicro lwSched (init lw) rfl⟩, ?_, rfl, rfl, rfl, rfl, ?_⟩
   · intro h
     have := h 1 (by decide)
     exact absurd this (by decide)
@@ -338,28 +369,132 @@ theorem lost_wakeup_counterexample_pinned :
 /-- Under the repaired protocol the same schedule lets worker 1 see that the entry changed and go
     round the loop again (it will find `Completed` and link). -/
 theorem lost_wakeup_repaired_proceeds :
-    ((runMicro { lw with variant := .repaired } init (lwSched ++ [1, 1])).1).pc 1 = .linkOp 0 0 := rfl
+    ((runMicro { lw with variant := .repaired } (init lw) (lwSched ++ [1, 1])).1).pc 1 = .linkOp 0 0 := rfl
 
-/-! ### "… and after later updates" — holds below the delta threshold, fails at or above it
+/-! ### what is still false on the current code
 
-  `Transferrer::update` has no hard-link handling (`transfer.rs:213-234`); what happens to the
-  destination's inode classes depends only on how `sync_file_with_delta` replaces the file
-  (`SyModel/Hardlink/Update.lean`). Replayed on the real binary: an 11 MB group of three links is
-  split into three inodes by its first content update (`C13/update-splits-link-group`); a new link
-  added to an already synced group is created as an independent copy
-  (`C13/update-new-link-not-joined`). Both are recorded findings (no small repair: `update` would
-  need the planner to compare inode classes, and an in-place rewrite would give up C09's atomic
-  replacement). -/
+  Replayed on the real binary (a68466f) before being stated here; each is a recorded finding.
+  * `C13/update-new-link-not-joined` — a new link added to an already synced group (whose other
+    names are up to date and therefore skipped) is created as an independent copy;
+  * `C13/skipped-members-keep-stale-structure` — a group broken up, or formed, in the source with
+    equal size and mtime is skipped altogether: the destination keeps the old structure;
+  * `C13/update-writes-through-foreign-link` — a destination inode shared by names of *different*
+    source inodes (the source was regrouped since the last `-H` sync) is rewritten in place by the
+    update of one of them when that source still has `nlink > 1`: an up-to-date, skipped name
+    silently receives another file's content (`break_unshared_hard_link` of 88af04c only covers
+    sources with a single name). This is why `link_structure` needs `Cfg.DstOk.noForeignLinks`.
+  `C13/update-splits-link-group` (≥ 10 MiB members each replaced by its own temp file) is fixed
+  by a68466f; `uncoordinated_update_splits_link_group` keeps the old behaviour's witness. -/
 
-/-- Updates that go through `fs::copy` (destination below the 10 MiB threshold) write *through* the
-    shared inode: no pair of destination paths changes its same-inode relation, whichever path is
-    updated, and every name of the updated inode shows the new content. -/
+/-- names `0`, `1` of source inode 7 are in the destination as one inode 100 and up to date
+    (skipped); name `2` is a new link to the same source inode. -/
+def joinCfg : Cfg where
+  variant := .repaired
+  n := 3
+  worker := fun w =>
+    { inode := 7, linked := true, action := if w = 2 then .create else .skip,
+      dst0 := if w = 2 then none else some ⟨100, 7⟩,
+      yMkdir := 0, yCopy := 0, yLink := 0,
+      failMkdir := false, failCopy := false, failMeta := false, failLink := false }
+  content := fun i => i
+
+def joinFinal : State := (runMicro joinCfg (init joinCfg) [2, 2, 2, 2, 2, 2, 2]).1
+
+/-- **`C13/update-new-link-not-joined`**: a well-formed destination, a clean run, everything
+    returned `Ok` — and the new name is a file of its own although its source shares the inode of
+    names `0` and `1`. Nothing ever records the skipped names in the inode map. -/
+theorem new_link_not_joined_counterexample :
+    joinCfg.DstOk ∧ Clean joinCfg ∧ Reachable joinCfg joinFinal ∧ allDoneB joinCfg joinFinal = true ∧
+      joinFinal.pc 2 = .done .ok ∧
+      (joinCfg.worker 0).inode = (joinCfg.worker 2).inode ∧
+      joinFinal.dst 0 = some ⟨100, 7⟩ ∧ joinFinal.dst 2 = some ⟨2, 7⟩ := by
+  refine ⟨⟨?_, ?_, ?_, ?_⟩, fun _ _ => rfl,
+    ⟨_, exec_of_runMicro [2, 2, 2, 2, 2, 2, 2] (init joinCfg) rfl⟩, rfl, rfl, rfl, rfl, rfl⟩
+  · intro q f _ h
+    simp only [joinCfg] at h ⊢
+    split at h <;> cases h
+    decide
+  · intro q r fq fr _ _ hq hr _
+    simp only [joinCfg] at hq hr
+    split at hq <;> split at hr <;> cases hq <;> cases hr
+    rfl
+  · intro q r fq fr _ _ _ _ _; rfl
+  · intro q _ h
+    simp only [joinCfg] at h
+    split at h <;> cases h
+
+/-- two up-to-date names (skipped): in `staleLink` their sources are different files but the
+    destination still has them as one inode; in `missingLink` their sources are one inode but the
+    destination has two files. -/
+def staleLink : Cfg where
+  variant := .repaired
+  n := 2
+  worker := fun w =>
+    { inode := 7 + w, linked := false, action := .skip, dst0 := some ⟨100, 7⟩,
+      yMkdir := 0, yCopy := 0, yLink := 0,
+      failMkdir := false, failCopy := false, failMeta := false, failLink := false }
+  content := fun _ => 7
+
+def missingLink : Cfg where
+  variant := .repaired
+  n := 2
+  worker := fun w =>
+    { inode := 7, linked := true, action := .skip, dst0 := some ⟨100 + w, 7⟩,
+      yMkdir := 0, yCopy := 0, yLink := 0,
+      failMkdir := false, failCopy := false, failMeta := false, failLink := false }
+  content := fun _ => 7
+
+/-- **`C13/skipped-members-keep-stale-structure`**: when every name of a regrouped file is skipped
+    (equal size and mtime) the run is over before it starts, and the destination keeps a link the
+    source no longer has / lacks a link the source has. -/
+theorem skipped_members_keep_stale_structure_counterexample :
+    (allDone staleLink (init staleLink) ∧
+      (staleLink.worker 0).inode ≠ (staleLink.worker 1).inode ∧
+      (init staleLink).dst 0 = some ⟨100, 7⟩ ∧ (init staleLink).dst 1 = some ⟨100, 7⟩) ∧
+    (allDone missingLink (init missingLink) ∧
+      (missingLink.worker 0).inode = (missingLink.worker 1).inode ∧
+      (init missingLink).dst 0 = some ⟨100, 7⟩ ∧ (init missingLink).dst 1 = some ⟨101, 7⟩) :=
+  ⟨⟨fun _ _ => rfl, by decide, rfl, rfl⟩, ⟨fun _ _ => rfl, rfl, rfl, rfl⟩⟩
+
+/-- names `0` (source inode 1, up to date, skipped), `1` and `2` (source inode 2, to be updated) are
+    one destination inode 100 — they were one group at the last sync; `1` and `2` are now the two
+    names of a new file. -/
+def foreignCfg : Cfg where
+  variant := .repaired
+  n := 3
+  worker := fun w =>
+    { inode := if w = 0 then 1 else 2, linked := w ≠ 0,
+      action := if w = 0 then .skip else .update,
+      dst0 := some ⟨100, 1⟩,
+      yMkdir := 0, yCopy := 0, yLink := 0,
+      failMkdir := false, failCopy := false, failMeta := false, failLink := false }
+  content := fun i => i
+
+def foreignFinal : State := (runMicro foreignCfg (init foreignCfg) [1, 1, 1, 1, 1, 1, 2, 2]).1
+
+/-- **`C13/update-writes-through-foreign-link`**: the update of name `1` rewrites the shared inode
+    in place; the skipped name `0` ends with the content of source inode 2 instead of 1, and all
+    three names share one inode although name `0`'s source is a different file. Every transfer
+    returned `Ok`. The only hypothesis of `link_structure` that fails is `noForeignLinks`. -/
+theorem foreign_link_write_through_counterexample :
+    Clean foreignCfg ∧ Reachable foreignCfg foreignFinal ∧ allDoneB foreignCfg foreignFinal = true ∧
+      foreignFinal.pc 1 = .done .ok ∧ foreignFinal.pc 2 = .done .ok ∧
+      (foreignCfg.worker 0).inode ≠ (foreignCfg.worker 1).inode ∧
+      foreignCfg.content (foreignCfg.worker 0).inode = 1 ∧
+      foreignFinal.dst 0 = some ⟨100, 2⟩ ∧ foreignFinal.dst 1 = some ⟨100, 2⟩ ∧
+      foreignFinal.dst 2 = some ⟨100, 2⟩ :=
+  ⟨fun _ _ => rfl, ⟨_, exec_of_runMicro [1, 1, 1, 1, 1, 1, 2, 2] (init foreignCfg) rfl⟩,
+    rfl, rfl, rfl, by decide, rfl, rfl, rfl, rfl⟩
+
+/-! ### a single `sync_file_with_delta` in isolation (the pre-a68466f update of a group member) -/
+
+/-- A write-through update never changes which paths share an inode, and every name of the updated
+    inode shows the new content. -/
 theorem update_small_preserves_structure (d : Dst) (p c : Nat) :
     (∀ q r, sameIno (updateSmall d p c) q r ↔ sameIno d q r) ∧
     (∀ q, sameIno d p q → ∃ f, updateSmall d p c q = some f ∧ f.content = c) :=
   ⟨fun q r => updateSmall_sameIno d p c q r, fun q h => updateSmall_content d p c q h⟩
 
-/-- … hence any sequence of such updates keeps the link structure established at creation. -/
 theorem updates_small_preserve_structure (ups : List (Nat × Nat)) (d : Dst) (q r : Nat) :
     sameIno (ups.foldl (fun d u => updateSmall d u.1 u.2) d) q r ↔ sameIno d q r := by
   induction ups generalizing d with
@@ -369,10 +504,9 @@ theorem updates_small_preserve_structure (ups : List (Nat × Nat)) (d : Dst) (q 
 /-- two names `0`, `1` of one destination inode `5` (content `1`). -/
 def linkedPair : Dst := fun q => if q = 0 ∨ q = 1 then some ⟨5, 1⟩ else none
 
-/-- **`C13/update-splits-link-group`**: updating both names through temp+rename (what the code does
-    at or above the threshold) leaves two different inodes although the sources still share one —
-    the full-strength "after later updates" clause is false for the code as it is. -/
-theorem update_counterexample_splits_link_group :
+/-- `C13/update-splits-link-group` (**fixed** by a68466f, kept as the witness of the old
+    behaviour): updating both names *independently* through temp+rename leaves two inodes. -/
+theorem uncoordinated_update_splits_link_group :
     sameIno linkedPair 0 1 ∧
     ¬ sameIno (updateLarge (updateLarge linkedPair 0 10 2) 1 11 2) 0 1 := by
   refine ⟨⟨⟨5, 1⟩, ⟨5, 1⟩, rfl, rfl, rfl⟩, ?_⟩
@@ -386,41 +520,9 @@ theorem update_counterexample_splits_link_group :
   rw [hf', hg'] at h
   cases h
 
-/-- **`C13/update-new-link-not-joined`**: a hard-link candidate that is the only member of its group
-    taking part in a run (the other names were synced earlier and are skipped, so no worker ever
-    records them in the map) always ends on a fresh inode of its own — it cannot be joined to the
-    names already in the destination. -/
-theorem sole_member_gets_fresh_inode (cfg : Cfg) (s : State) (hr : Reachable cfg s) (w : Nat)
-    (hl : (cfg.worker w).linked = true)
-    (hsole : ∀ v, v < cfg.n → (cfg.worker v).inode = (cfg.worker w).inode → v = w)
-    (hok : s.pc w = .done .ok) :
-    s.dst w = some ⟨w, cfg.content (cfg.worker w).inode⟩ := by
-  have hi := inv_reachable hr
-  obtain ⟨p, hm, hd⟩ := hi.okLinked w hl hok
-  obtain ⟨hp, _, hino, _, _⟩ := hi.mapDone _ p hm
-  rw [hsole p hp hino] at hd
-  exact hd
-
-/-- What remains true of the property's structure clause on the code as it is (complement of the
-    two recorded signatures): exact for everything created in the run (`link_structure`), and
-    stable under every later update that stays below the delta threshold. -/
-theorem link_structure_partial (cfg : Cfg) (hwf : WF cfg) (s : State) (hr : Reachable cfg s)
-    (w₁ w₂ : Nat) (hw₁ : w₁ < cfg.n) (hw₂ : w₂ < cfg.n)
-    (hok₁ : s.pc w₁ = .done .ok) (hok₂ : s.pc w₂ = .done .ok) (ups : List (Nat × Nat)) :
-    sameIno (ups.foldl (fun d u => updateSmall d u.1 u.2) s.dst) w₁ w₂ ↔
-      (cfg.worker w₁).inode = (cfg.worker w₂).inode := by
-  rw [updates_small_preserve_structure]
-  obtain ⟨f₁, f₂, h₁, h₂, hiff, _, _⟩ := link_structure cfg hwf s hr w₁ w₂ hw₁ hw₂ hok₁ hok₂
-  constructor
-  · rintro ⟨a, b, ha, hb, hab⟩
-    rw [h₁] at ha; rw [h₂] at hb; cases ha; cases hb
-    exact hiff.mp hab
-  · intro h
-    exact ⟨f₁, f₂, h₁, h₂, hiff.mpr h⟩
-
 /-! ### non-vacuity -/
 
-/-- two links of inode 7 and one ordinary file; the first link's copy fails. -/
+/-- two links of inode 7 and one ordinary file, all to be created; the first link's copy fails. -/
 def ex : Cfg where
   variant := .repaired
   n := 3
@@ -444,30 +546,60 @@ example : WF ex := by
 def exSched : List Nat :=
   [0, 0, 1, 1, 1, 0, 0, 0, 0, 0, 1, 1, 1, 1, 1, 1, 1, 1, 1, 2, 2, 2, 2, 2]
 
-def exFinal : State := (runMicro ex init exSched).1
+def exFinal : State := (runMicro ex (init ex) exSched).1
 
-example : Reachable ex exFinal := ⟨exSched, exec_of_runMicro exSched init rfl⟩
+example : Reachable ex exFinal := ⟨exSched, exec_of_runMicro exSched (init ex) rfl⟩
 /-- the hypotheses of `owner_failure_surfaces` / `every_run_completes` are met by a real run: the
     failing owner returned its error, the waiter took over and finished. -/
 example : exFinal.pc 0 = .done (.err .copy) ∧ exFinal.pc 1 = .done .ok ∧ exFinal.pc 2 = .done .ok ∧
     exFinal.map 7 = some (.completed 1) ∧ allDoneB ex exFinal = true := ⟨rfl, rfl, rfl, rfl, rfl⟩
 /-- `link_structure`'s hypotheses (two `Ok` results) are met, with different inodes. -/
 example : exFinal.dst 1 = some ⟨1, 107⟩ ∧ exFinal.dst 2 = some ⟨2, 109⟩ := ⟨rfl, rfl⟩
-/-- a state with two claim holders of *different* inodes exists (`single_owner` is not about an
-    empty set of states). -/
-example : ((runMicro ex init [0, 0]).1.pc 0).holdsClaim = true := rfl
+/-- a state with a claim holder exists (`single_owner` is not about an empty set of states). -/
+example : ((runMicro ex (init ex) [0, 0]).1.pc 0).holdsClaim = true := rfl
 /-- a clean configuration and a final state of it in which a link was made. -/
 def exClean : Cfg := { lw with variant := .repaired }
 example : Clean exClean := fun _ _ => rfl
-example : (runMicro exClean init [0, 0, 1, 1, 1, 0, 0, 0, 0, 0, 1, 1, 1]).1.dst 1 = some ⟨0, 1⟩ := rfl
+example : (runMicro exClean (init exClean) [0, 0, 1, 1, 1, 0, 0, 0, 0, 0, 1, 1, 1]).1.dst 1 = some ⟨0, 1⟩ := rfl
 /-- a blocked waiter exists in the repaired protocol (hypothesis of `waiter_has_live_owner`). -/
-example : enabled exClean (runMicro exClean init [0, 0, 1, 1, 1]).1 1 = false := rfl
-/-- `sole_member_gets_fresh_inode`: a run whose only worker is a link candidate. -/
-example : (runMicro { exClean with n := 1 } init [0, 0, 0, 0, 0, 0, 0]).1.pc 0 = .done .ok := rfl
+example : enabled exClean (runMicro exClean (init exClean) [0, 0, 1, 1, 1]).1 1 = false := rfl
+
+/-- three names of source inode 7, all to be **updated**; the destination has them as one inode 100
+    with stale content 1; `large` selects temp file + rename for the owner. -/
+def upd (large : Bool) : Cfg where
+  variant := .repaired
+  n := 3
+  worker := fun _ =>
+    { inode := 7, linked := true, action := .update, large := large, dst0 := some ⟨100, 1⟩,
+      yMkdir := 0, yCopy := 1, yLink := 0,
+      failMkdir := false, failCopy := false, failMeta := false, failLink := false }
+  content := fun i => i
+
+/-- `Cfg.DstOk` is satisfiable by a destination that really has a link group. -/
+example (large : Bool) : (upd large).DstOk :=
+  ⟨fun _ f _ h => by cases h; simp [upd], fun _ _ _ _ _ _ hq hr _ => by cases hq; cases hr; rfl,
+   fun _ _ _ _ _ _ _ _ _ => rfl, fun _ _ _ => rfl⟩
+
+def updSched : List Nat := [0, 0, 1, 1, 1, 0, 0, 0, 0, 0, 1, 1, 1, 2, 2]
+
+/-- at or above the gate: the owner's path gets the fresh inode 0; name 1 (which waited) and name 2
+    (which came later) are removed and re-linked — one inode, new content. -/
+example : (runMicro (upd true) (init (upd true)) (updSched ++ [1, 1, 2, 2])).1.dst 0 = some ⟨0, 7⟩ ∧
+    (runMicro (upd true) (init (upd true)) (updSched ++ [1, 1, 2, 2])).1.dst 1 = some ⟨0, 7⟩ ∧
+    (runMicro (upd true) (init (upd true)) (updSched ++ [1, 1, 2, 2])).1.dst 2 = some ⟨0, 7⟩ ∧
+    allDoneB (upd true) (runMicro (upd true) (init (upd true)) (updSched ++ [1, 1, 2, 2])).1 = true :=
+  ⟨rfl, rfl, rfl, rfl⟩
+/-- below the gate: the owner writes through inode 100; the other names already name it and have
+    nothing to do. -/
+example : (runMicro (upd false) (init (upd false)) updSched).1.dst 0 = some ⟨100, 7⟩ ∧
+    (runMicro (upd false) (init (upd false)) updSched).1.dst 1 = some ⟨100, 7⟩ ∧
+    (runMicro (upd false) (init (upd false)) updSched).1.dst 2 = some ⟨100, 7⟩ ∧
+    allDoneB (upd false) (runMicro (upd false) (init (upd false)) updSched).1 = true :=
+  ⟨rfl, rfl, rfl, rfl⟩
 /-- `updateSmall` on a linked pair: both names show the new content, still one inode. -/
 example : updateSmall linkedPair 0 9 1 = some ⟨5, 9⟩ := rfl
 /-- `poll` really runs several micro-steps: worker 0 of `ex` runs to the await point inside its copy. -/
-example : (poll ex init 0).2.1 = [.readNone, .claimOk, .opOk .mkdir, .yield .copy] ∧
-    (poll ex init 0).2.2 = .pending := ⟨rfl, rfl⟩
+example : (poll ex (init ex) 0).2.1 = [.readNone, .claimOk, .opOk .mkdir, .yield .copy] ∧
+    (poll ex (init ex) 0).2.2 = .pending := ⟨rfl, rfl⟩
 
 end SyModel.Props.C13
